@@ -45,12 +45,16 @@ def extract_body(prog: Program, qualname: str) -> Body:
     if len(gl) != 1:
         raise AnalysisError(f"{qualname}: expected one loop over dt_with_count at function level, found {len(gl)}")
     g = gl[0]
-    if unparse(g.iter) != "dt_with_count.items()" or not isinstance(g.target, ast.Tuple) or len(g.target.elts) != 2:
-        raise AnalysisError(f"{qualname}: group loop is not `for dt, count in dt_with_count.items()`")
-    dt_var = unparse(g.target.elts[0])
-    count_var = unparse(g.target.elts[1])
-    if count_var == "_":
-        count_var = None
+    it = unparse(g.iter)
+    if it == "dt_with_count.items()" and isinstance(g.target, ast.Tuple) and len(g.target.elts) == 2:
+        dt_var = unparse(g.target.elts[0])
+        count_var = unparse(g.target.elts[1])
+        if count_var == "_":
+            count_var = None
+    elif it in ("dt_with_count", "dt_with_count.keys()", "list(dt_with_count)", "list(dt_with_count.keys())") and isinstance(g.target, ast.Name):
+        dt_var, count_var = g.target.id, None
+    else:
+        raise AnalysisError(f"{qualname}: group loop `{norm_key(g, 80)}` is not a loop over the time steps of dt_with_count")
     rl = [st for st in g.body if isinstance(st, ast.For) and "records" in unparse(st.iter)]
     if len(rl) != 1:
         raise AnalysisError(f"{qualname}: expected one per-record loop inside the group loop")
@@ -74,29 +78,70 @@ def extract_body(prog: Program, qualname: str) -> Body:
 
 
 class RowExec:
-    """Straight-line canonicalisation of a per-record body."""
+    """Canonicalisation of a per-record body into sympy terms (straight-line, interprocedural).
+
+    Time-series objects are modelled by reference: an object symbol with an ``amplitude`` field in a
+    small heap, so that ``x = TimeSeries.from_timeseries(record.ns); x.window(...)`` updates the copy and
+    ``x = record.ns; x.window(...)`` is seen as tapering the caller's component.  Calls of package-level
+    functions whose bodies are straight-line code are inlined (helpers extracted by a refactoring do not
+    change the canonical form)."""
+
+    MAX_DEPTH = 3
 
     def __init__(self, prog: Program, body: Body, azimuth_symbol: Optional[sp.Symbol] = None):
         self.prog = prog
         self.b = body
         self.rows: Dict[str, sp.Expr] = {}
-        self.objs: Dict[str, sp.Expr] = {}     # name -> current amplitude of a TimeSeries-valued local
         self.notes: List[str] = []
-        rec = body.record
-        self.comp = {f"{rec}.ns": NS, f"{rec}.ew": EW, f"{rec}.vt": VT}
-        self.az = azimuth_symbol
-        self.T = Translator(call_hook=self._hook, symbol_hook=self._sym)
+        self.heap: Dict[sp.Symbol, Dict[str, object]] = {}
         self.inplace_on_record: List[ast.AST] = []
+        self.az = azimuth_symbol
+        self._n = 0
+        rec = body.record
+        self.rec_obj = self._new_obj(None, caller=True, label="record")
+        self.comp_obj = {}
+        for c, sym in (("ns", NS), ("ew", EW), ("vt", VT)):
+            o = self._new_obj(sym, caller=True, label=f"{rec}.{c}")
+            self.comp_obj[c] = o
+        self.T = self._translator({}, body.func.module, depth=0)
+        self.T.env[rec] = self.rec_obj
 
-    # -- symbols: record.ns.amplitude etc.
-    def _sym(self, name: str):
-        for k, v in self.comp.items():
-            if name == f"{k}.amplitude":
-                return v
-        if name.endswith(".amplitude") and name[:-10] in self.objs:
-            return self.objs[name[:-10]]
-        return None
+    # ---------------------------------------------------------------- heap
+    def _new_obj(self, amplitude, caller=False, label="obj"):
+        self._n += 1
+        o = sp.Symbol(f"<{label}#{self._n}>")
+        self.heap[o] = {"amplitude": amplitude, "caller": caller}
+        return o
 
+    def _translator(self, env, module, depth):
+        T = Translator(env=env)
+        T._module = module
+        T._depth = depth
+        T.call_hook = self._hook
+        T.symbol_hook = None
+        orig_attr = T.t_Attribute
+
+        def t_attribute(n, T=T, orig=orig_attr):
+            # field access on modelled objects
+            base = None
+            try:
+                if isinstance(n.value, (ast.Name, ast.Attribute)):
+                    base = T.tr(n.value)
+            except AnalysisError:
+                base = None
+            if base is not None and base in self.heap:
+                if base == self.rec_obj and n.attr in self.comp_obj:
+                    return self.comp_obj[n.attr]
+                if n.attr == "amplitude":
+                    a = self.heap[base]["amplitude"]
+                    if a is not None:
+                        return a
+                return sp.Symbol(f"{base}.{n.attr}")
+            return orig(n)
+        T.t_Attribute = t_attribute
+        return T
+
+    # ---------------------------------------------------------------- calls
     def _hook(self, call: ast.Call, T: Translator):
         nm = call_name(call)
         f = call.func
@@ -105,61 +150,281 @@ class RowExec:
             if not any(k.arg is None and unparse(k.value) == "settings.fft_settings" for k in call.keywords):
                 self.notes.append(f"rfft without **settings.fft_settings at line {call.lineno}")
             return rfft_(T.tr(args[0]))
-        if nm in ("from_timeseries",) and args:
-            return sp.Function("copy_of")(T.tr(ast.Attribute(value=args[0], attr="amplitude", ctx=ast.Load())))
+        if nm == "from_timeseries" and args:
+            src = T.tr(args[0])
+            if src in self.heap:
+                return self._new_obj(self.heap[src]["amplitude"], label="copy")
+            return self._new_obj(sp.Function("amplitude_of")(src), label="copy")
+        if nm == "from_seismic_recording_3c" and args:
+            return sp.Function("copy3c")(T.tr(args[0]))
         if nm == "TimeSeries" and isinstance(f, ast.Name) and args:
-            return sp.Function("copy_of")(T.tr(args[0]))
-        if nm == "single_azimuth" and isinstance(f, ast.Name) and len(args) == 3:
-            a, b, az = T.tr(args[0]), T.tr(args[1]), T.tr(args[2])
-            return sp.Function("proj")(a, b, az)
-        if nm == "method" and isinstance(f, ast.Name) and len(args) >= 2:
-            return combine(T.tr(args[0]), T.tr(args[1]))
+            return self._new_obj(T.tr(args[0]), label="ts")
+        if nm == "TimeSeries" and isinstance(f, ast.Name) and kwarg(call, "amplitude") is not None:
+            return self._new_obj(T.tr(kwarg(call, "amplitude")), label="ts")
         if nm in ("conjugate", "conj") and args:
             return sp.conjugate(T.tr(args[0]))
+        if isinstance(f, ast.Name):
+            # a local bound to the combine register
+            v = T.env.get(f.id)
+            if v is not None and v == sp.Symbol("<combine>") and len(args) >= 2:
+                return combine(T.tr(args[0]), T.tr(args[1]))
+            # package-level helper with a straight-line body: inline
+            r = self.prog.resolve_name(getattr(T, "_module", self.b.func.module), f.id)
+            if r and r[0] == "func" and getattr(T, "_depth", 0) < self.MAX_DEPTH:
+                out = self._inline(r[1], call, T)
+                if out is not None:
+                    return out
+        if isinstance(f, ast.Subscript) and unparse(f.value) == "COMBINE_HORIZONTAL_REGISTER" and len(args) >= 2:
+            return combine(T.tr(args[0]), T.tr(args[1]))
         return None
 
+    def _inline(self, g: Func, call: ast.Call, T: Translator):
+        body = [st for st in g.node.body if not (isinstance(st, ast.Expr) and isinstance(st.value, ast.Constant))]
+        if any(not isinstance(st, (ast.Assign, ast.AugAssign, ast.Expr, ast.Return)) for st in body):
+            return None
+        if sum(isinstance(st, ast.Return) for st in body) != 1 or not isinstance(body[-1], ast.Return):
+            return None
+        from ..astutil import bind_call
+        bound = bind_call(call, g.params)
+        env = {}
+        for p in g.params:
+            if p in bound:
+                env[p] = T.tr(bound[p])
+            elif p in g.defaults():
+                env[p] = Translator().tr(g.defaults()[p])
+            else:
+                return None
+        # `settings` keeps its name so that settings.<field> symbols agree between caller and helper
+        for p, v in list(env.items()):
+            if v.is_Symbol and v.name == "settings" and p != "settings":
+                return None
+        T2 = self._translator(env, g.module, getattr(T, "_depth", 0) + 1)
+        self._run(body[:-1], T2)
+        return T2.tr(body[-1].value)
+
+    # ---------------------------------------------------------------- statements
     def run(self, stmts: List[ast.stmt]):
-        T = self.T
+        self._run(stmts, self.T)
+        return self
+
+    def _run(self, stmts: List[ast.stmt], T: Translator):
         for st in stmts:
             if isinstance(st, ast.Assign) and len(st.targets) == 1:
                 t = st.targets[0]
                 if isinstance(t, ast.Name):
-                    v = T.tr(st.value)
-                    if v.is_Function and v.func.__name__ == "copy_of":
-                        self.objs[t.id] = v.args[0]
-                        T.env.pop(t.id, None)
-                        # a plain alias of a record component is *not* a copy
-                    elif isinstance(st.value, ast.Attribute) and unparse(st.value) in self.comp:
-                        self.objs[t.id] = self.comp[unparse(st.value)]
-                        self.inplace_alias = getattr(self, "inplace_alias", set()) | {t.id}
+                    if unparse(st.value).startswith("COMBINE_HORIZONTAL_REGISTER["):
+                        if unparse(st.value) != "COMBINE_HORIZONTAL_REGISTER[settings.method_to_combine_horizontals]":
+                            self.notes.append(f"combine method looked up as `{unparse(st.value)}`")
+                        T.env[t.id] = sp.Symbol("<combine>")
                     else:
-                        T.env[t.id] = v
+                        T.env[t.id] = T.tr(st.value)
                 elif isinstance(t, ast.Subscript):
                     self.rows[unparse(t)] = T.tr(st.value)
+                elif isinstance(t, (ast.Tuple, ast.List)) and isinstance(st.value, (ast.Tuple, ast.List)) and len(t.elts) == len(st.value.elts):
+                    vals = [T.tr(v) for v in st.value.elts]
+                    for e, v in zip(t.elts, vals):
+                        if isinstance(e, ast.Name):
+                            T.env[e.id] = v
             elif isinstance(st, ast.Expr) and isinstance(st.value, ast.Call) and call_name(st.value) == "window" \
                     and isinstance(st.value.func, ast.Attribute):
-                tgt = unparse(st.value.func.value)
+                try:
+                    tgt = T.tr(st.value.func.value)
+                except AnalysisError:
+                    tgt = None
                 if not any(isinstance(a, ast.Starred) and unparse(a.value) == "settings.window_type_and_width" for a in st.value.args):
                     self.notes.append(f"window() without *settings.window_type_and_width at line {st.lineno}")
-                if tgt in self.objs:
-                    self.objs[tgt] = taper(self.objs[tgt])
-                    if tgt in getattr(self, "inplace_alias", set()):
+                targets = []
+                if tgt == self.rec_obj:
+                    targets = list(self.comp_obj.values())
+                elif tgt in self.heap:
+                    targets = [tgt]
+                for o in targets:
+                    h = self.heap[o]
+                    if h["caller"]:
                         self.inplace_on_record.append(st)
-                elif tgt == self.b.record or tgt in self.comp:
-                    self.inplace_on_record.append(st)
-                    if tgt == self.b.record:
-                        for k in list(self.comp):
-                            self.comp[k] = taper(self.comp[k])
-                    else:
-                        self.comp[tgt] = taper(self.comp[tgt])
+                    if h["amplitude"] is not None:
+                        h["amplitude"] = taper(h["amplitude"])
             elif isinstance(st, ast.AugAssign):
                 forward_substitute([st], T)
             elif isinstance(st, ast.For):
                 # azimuth loop of RotDpp: execute the body once with a symbolic azimuth
+                az = self.az if self.az is not None else sp.Symbol("azimuth", real=True)
                 if isinstance(st.target, ast.Tuple) and len(st.target.elts) == 2:
                     T.env[unparse(st.target.elts[0])] = sp.Symbol("az_index", integer=True)
-                    T.env[unparse(st.target.elts[1])] = self.az if self.az is not None else sp.Symbol("azimuth", real=True)
+                    T.env[unparse(st.target.elts[1])] = az
                 elif isinstance(st.target, ast.Name):
-                    T.env[st.target.id] = self.az if self.az is not None else sp.Symbol("azimuth", real=True)
-                self.run(st.body)
-        return self
+                    if "azimuth" in unparse(st.iter):
+                        T.env[st.target.id] = az
+                    else:
+                        T.env[st.target.id] = sp.Symbol(f"<elem of {unparse(st.iter)}>")
+                self._run(st.body, T)
+
+
+def rotdpp_roles(prog: Program):
+    """Canonical description of the RotDpp body: (problems, facts).  Indices are normalised against the
+    number of rows of the per-record array, so `[-1]` and `[n_azimuths]`, `[:-1]` and `[:n_azimuths]` agree."""
+    from ..resolve import Resolver, canon
+    from ..expr import equal
+    q = "processing.traditional_rotdpp_hvsr_processing"
+    b = extract_body(prog, q)
+    f = b.func
+    R = Resolver(prog, f)
+    problems: List[str] = []
+    facts: List[str] = []
+    NAZ = R.expect("len(settings.azimuths_in_degrees)")
+    # the per-record array: the one handed to the smoothing operator
+    sm = None
+    for c in calls_in(b.record_loop):
+        if isinstance(c.func, (ast.Subscript, ast.Name)):
+            try:
+                v = R.value(c.func, c)
+            except AnalysisError:
+                continue
+            if "SMOOTHING_OPERATORS" in str(v):
+                sm = c
+    if sm is None:
+        raise AnalysisError(f"{q}: smoothing call not found in the per-record loop")
+    from ..astutil import bind_call
+    sb = bind_call(sm, ["frequencies", "spectrum", "fcs", "bandwidth"])
+    arr = sb.get("spectrum")
+    if not isinstance(arr, ast.Name):
+        raise AnalysisError(f"{q}: the array handed to the smoothing operator is not a named array")
+    alloc = R.value(arr, sm)
+    nrows = None
+    if alloc.is_Function and alloc.func.__name__ in ("empty", "zeros") and alloc.args and isinstance(alloc.args[0], sp.Tuple):
+        nrows = alloc.args[0][0]
+    if nrows is None or not equal(nrows, NAZ + 1):
+        problems.append(f"the per-record array has {nrows} rows; expected len(azimuths) + 1")
+        nrows = NAZ + 1
+
+    def norm(ix):
+        if ix.is_Integer and ix < 0:
+            return nrows + ix
+        return ix
+    # stores into the array
+    want_iter = R.expect("enumerate(settings.azimuths_in_degrees)")
+    az_loops = []
+    for st in b.record_loop.body:
+        if isinstance(st, ast.For):
+            try:
+                if equal(R.value(st.iter, st), want_iter):
+                    az_loops.append(st)
+            except AnalysisError:
+                pass
+    if len(az_loops) != 1 or not isinstance(az_loops[0].target, ast.Tuple):
+        raise AnalysisError(f"{q}: loop over enumerate(settings.azimuths_in_degrees) not found in the per-record loop")
+    al = az_loops[0]
+    ix_name, az_name = unparse(al.target.elts[0]), unparse(al.target.elts[1])
+    if any(isinstance(x, (ast.Break, ast.Continue, ast.If)) for x in ast.walk(al)):
+        problems.append("the azimuth loop skips or stops early")
+    ex = RowExec(prog, b, sp.Symbol(az_name, real=True))
+    ex.T.env[ix_name] = sp.Symbol(ix_name, integer=True)
+    stmts = [st for st in b.record_loop.body if st is not b.filter_if]
+    ex.run(stmts)
+    problems += ex.notes
+    rows = {}
+    for st in ast.walk(b.record_loop):
+        if isinstance(st, ast.Assign) and isinstance(st.targets[0], ast.Subscript) and unparse(st.targets[0].value) == arr.id:
+            ix = norm(R.value(st.targets[0].slice, st))
+            val = ex.rows.get(unparse(st.targets[0]))
+            rows[ix] = (val, st)
+    azs = sp.Symbol(az_name, real=True)
+    want_h = sp.Abs(rfft_(taper(NS * sp.cos(azs * sp.pi / 180) + EW * sp.sin(azs * sp.pi / 180))))
+    want_v = sp.Abs(rfft_(taper(VT)))
+    ixs = sp.Symbol(ix_name, real=True)
+    h = [(k, v) for k, v in rows.items() if str(k) == ix_name]
+    v_ = [(k, v) for k, v in rows.items() if equal(k, NAZ)]
+    if len(h) == 1 and h[0][1][0] is not None and equal(h[0][1][0], want_h):
+        facts.append(f"row i (i-th azimuth) = {want_h}")
+    else:
+        problems.append(f"row of azimuth i holds {h[0][1][0] if h else None}; expected {want_h}")
+    if len(v_) == 1 and v_[0][1][0] is not None and equal(v_[0][1][0], want_v):
+        facts.append(f"last row = {want_v}")
+    else:
+        problems.append(f"the vertical spectrum is not stored in the last row (rows written: {[str(k) for k in rows]})")
+    if len(rows) != 2:
+        problems.append(f"{len(rows)} distinct rows are written per record; expected the azimuth rows and the vertical row")
+    # ratio
+    ratio = [st for st in b.record_loop.body if isinstance(st, ast.Assign) and isinstance(st.targets[0], ast.Subscript)
+             and unparse(st.targets[0].value) == "hvsr_spectra"]
+    if len(ratio) != 1:
+        raise AnalysisError(f"{q}: store of the HVSR row not found")
+    val = canon(R.value(ratio[0].value, ratio[0]))
+    S = canon(R.value(ast.Name(id=unparse(parent_of(sm).targets[0]), ctx=ast.Load()), ratio[0])) if isinstance(parent_of(sm), ast.Assign) else None
+    okr = False
+    num = den = None
+    if val.is_Mul:
+        dens = [a.base for a in val.args if a.is_Pow and a.exp == -1]
+        nums = [a for a in val.args if not (a.is_Pow and a.exp == -1)]
+        if len(dens) == 1 and len(nums) == 1:
+            num, den = nums[0], dens[0]
+    gi = sp.Function("getitem")
+    if num is not None and S is not None:
+        # denominator: S[NAZ]
+        den_ok = den.is_Function and den.func.__name__ == "getitem" and equal(den.args[0], S) and equal(norm(den.args[1]), NAZ)
+        num_ok = False
+        if num.is_Function and num.func.__name__ == "percentile" and len(num.args) >= 2:
+            a0 = num.args[0]
+            pp = num.args[1]
+            axis_ok = len(num.args) >= 3 and num.args[2] == 0
+            sl_ok = False
+            if a0.is_Function and a0.func.__name__ == "getitem" and equal(a0.args[0], S):
+                sl = a0.args[1]
+                if sl.is_Function and sl.func.__name__ == "slice":
+                    lo, hi, stp = sl.args
+                    lo_ok = str(lo) == "None" or lo == 0
+                    sl_ok = lo_ok and str(stp) == "None" and equal(norm(hi), NAZ)
+            num_ok = sl_ok and axis_ok and equal(pp, R.expect("settings.ppth_percentile_for_rotdpp_computation"))
+            if not axis_ok:
+                problems.append("the percentile is not taken along axis 0 (over the azimuths)")
+            if not sl_ok:
+                problems.append(f"the percentile is taken over {a0}; expected the azimuth rows only (all rows but the last)")
+        else:
+            problems.append(f"the numerator is {str(num)[:120]}, not np.percentile over the azimuth rows")
+        if not den_ok:
+            problems.append(f"the denominator is {str(den)[:120]}; expected the smoothed vertical (last) row")
+        okr = num_ok and den_ok
+    else:
+        problems.append("the HVSR row is not a ratio percentile(horizontal rows)/vertical row")
+    if okr:
+        facts.append("curve = percentile over axis 0 of the smoothed azimuth rows / smoothed vertical row")
+    return problems, facts, b
+
+
+def taper_rule(ck, prog: Program, rule: str):
+    """TimeSeries.window multiplies the samples by tukey(n_samples, alpha=width), computed from its own
+    arguments on every call, and touches nothing but the object itself."""
+    from ..resolve import Resolver
+    from ..expr import equal
+    from .common import engine, describe_effect
+    m = prog.func("timeseries.TimeSeries.window")
+    q = m.qualname
+    R = Resolver(prog, m)
+    aug = [st for st in own_nodes(m.node) if isinstance(st, ast.AugAssign) and unparse(st.target) == "self.amplitude" and isinstance(st.op, ast.Mult)]
+    mul = [st for st in own_nodes(m.node) if isinstance(st, ast.Assign) and unparse(st.targets[0]) == "self.amplitude"]
+    want = R.expect("tukey(self.n_samples, alpha=width)")
+    got = None
+    if len(aug) == 1 and not mul:
+        got = R.value(aug[0].value, aug[0])
+    elif len(mul) == 1 and not aug:
+        v = R.value(mul[0].value, mul[0])
+        amp = R.expect("self.amplitude")
+        if v.is_Mul and amp in v.args:
+            got = v / amp
+    if got is not None and equal(got, want) and not R.multi:
+        ck.ok(rule, q, "self.amplitude *= tukey(self.n_samples, alpha=width)", detail="taper computed from this call's arguments")
+    else:
+        ck.violation(rule, q, "taper",
+                     f"the samples are multiplied by {got} (names with several definitions: {sorted(R.multi)}); expected tukey(self.n_samples, alpha=width) "
+                     f"computed from this call's own type and width", loc=m.loc())
+    guard = [st for st in m.node.body if isinstance(st, ast.If) and "tukey" in unparse(st.test)]
+    if guard and any(isinstance(b, ast.Raise) for b in guard[0].orelse):
+        ck.ok(rule, q, "unknown taper types raise", nontrivial=False)
+    else:
+        ck.violation(rule, q, "unknown taper type", "an unknown taper type does not raise", loc=m.loc())
+    s = engine(prog).summary(m)
+    bad = [e for e in s.effects if e.origin[0] == "G" or (e.origin[0] == "P" and e.origin[1] != 0)]
+    if not bad:
+        ck.ok(rule, q, "no state outside the object is written (no taper cache)")
+    for e in bad:
+        ck.violation(rule, q, e.site.text, f"tapering keeps state between calls: {describe_effect(e)} (the taper applied would depend on earlier calls)", loc=e.site.loc)
